@@ -30,6 +30,7 @@ func init() {
 		Explain: "Decides the aggregation and reply-size clauses structurally: in the reply reader the reply counter is incremented before anything else for each reply, the failure counter is incremented on exactly the three failure edges (bad/missing type byte, undecodable, Result false) and key counters only on the decoded path; the operation returns a non-nil error exactly on NumErr != 0 or NumResp != NumNodes once the query ran; the list reply that is returned is the very buffer for which checkResponseSize returned nil, the key list is only ever re-sliced to a prefix [0:i] with the message naming (i, actual) of the same iteration, and the send path re-checks the size. That one key always fits is not covered.",
 		Run:     runC23,
 		Mutants: []Mutant{
+			{Name: "reply-struct-reused", File: "serf/keymanager.go", Func: "func (k *KeyManager) streamKeyResp(", Old: "\t\tvar nodeResponse nodeKeyResponse\n", New: "", Old2: "\tfor r := range ch {\n", New2: "\tvar nodeResponse nodeKeyResponse\n\tfor r := range ch {\n", Expect: "R4"},
 			{Name: "rename-locals", Equivalent: true, Regexp: true, File: "serf/keymanager.go", Func: "func (k *KeyManager) streamKeyResp(", Old: `\b(nodeResponse|r)\b`, New: "${1}Renamed"},
 			{Name: "undecodable-not-counted", File: "serf/keymanager.go", Func: "func (k *KeyManager) streamKeyResp(", Old: "\t\t\t\t\"Failed to decode key query response: %v\", r.Payload)\n\t\t\tresp.NumErr++\n", New: "\t\t\t\t\"Failed to decode key query response: %v\", r.Payload)\n", Expect: "R1"},
 			{Name: "errors-ignored-when-all-replied", File: "serf/keymanager.go", Func: "func (k *KeyManager) handleKeyRequest(", Old: "if resp.NumErr != 0 {", New: "if resp.NumErr != 0 && resp.NumResp != resp.NumNodes {", Expect: "R2"},
@@ -232,6 +233,10 @@ func runC22(c *an.Ctx) {
 }
 
 func runC23(c *an.Ctx) {
+	c.Rule("R4 every node reply is decoded into a fresh value (a reply that omits a field must not inherit it from the previous node's reply)")
+	if sk := sm(c, "R4", "KeyManager", "streamKeyResp"); sk != nil {
+		c.Floor("R4", "reply decode sites in streamKeyResp", decodeTargetsFresh(c, "R4", []*ssa.Function{sk}), 1)
+	}
 	c.Rule("R1 streamKeyResp: NumResp++ first for every reply; NumErr++ on exactly three edges (bad/missing type byte, undecodable, Result false); key counters only on the decoded path")
 	c.Rule("R2 handleKeyRequest: after the query ran, a non-nil error exactly on NumErr != 0 ∨ NumResp != NumNodes")
 	c.Rule("R3 list reply: returned buffer passed checkResponseSize==nil (same value); Keys only re-sliced [0:i]; message names (i, actual); send path re-checks")
